@@ -73,8 +73,13 @@ func ruleR2(c *Ctx, id string) {
 			continue
 		}
 		mb := MustBefore(f, pre.Instr)
-		ma := MustAfter(f, post.Instr, nil)
 		for _, call := range calls {
+			// a commit the journal refuses (result false) is undone, not published: judged by C09.A8
+			var refused func(from, to *ssa.BasicBlock) bool
+			if cv, isC := call.(*ssa.Call); isC && staticCallee(call) == V.JrnlCommitWait {
+				refused = boolEdge(f, cv, false)
+			}
+			ma := MustAfterE(f, post.Instr, nil, refused)
 			k := FuncName(f) + "|PreCommit before durability"
 			R.Check(mb(call), id, k, P.Pos(call.Pos()), "AllocTxn.PreCommit (bitmap bits) on every path before the durability point", "must-precede holds", "a path reaches the durability point without PreCommit: allocated blocks/inodes are committed without their bitmap bits")
 			k = FuncName(f) + "|PostCommit after durability"
